@@ -7,10 +7,16 @@ in a routing map — carry pairwise different IDs), `C05_request_id_unique` (the
 with differs from that of every other such operation) and `C05_range` (every ID is within 1..N),
 for ANY interleaving of any number of handles' calls with the driver and the server.  Hypothesis
 `FreshRun2` (finding F13: needs a full wrap of the ID space while one call is stuck before the
-driver), discharged for all histories with at most N allocations (`C05_unique_nowrap`).
+driver), discharged for all histories with at most N allocations (`C05_unique_nowrap`) and, ACROSS any
+number of wraps, for all histories of any length in which no ID of a call on its way to the driver is
+released early (`C05_unique_across_wraps`, `C05_request_id_unique_across_wraps`,
+`C05_next_id_skips_outstanding`; decidable check `noEarlyRelease`, purely syntactic sufficient
+condition `calm` + driver alive).
 -/
 import Ldap3V.Lemmas.IdAlloc
 import Ldap3V.Lemmas.ConnUniq
+import Ldap3V.Lemmas.ConnWrap
+import Ldap3V.Lemmas.ConnCalm
 namespace Ldap3V
 
 /-- The allocator returns the FIRST free ID in the cyclic order last+1, …, N, 1, …, last; it is
@@ -111,6 +117,95 @@ theorem C05_range (N : Nat) (hN : 1 ≤ N) (evs : List Ev) (i : Nat) (o : Op)
   rw [hn] at this
   exact this
 
+/-! ### across wraps: uniqueness for histories of ANY length
+
+`noEarlyRelease (init N) evs` (Lemmas/ConnWrap.lean; decidable — it evaluates the model along the
+history) says that no event of the history releases the ID of a call that is still on its way to the
+driver, i.e. at every event:
+  * `drvScrub`: the ID being scrubbed is not the ID of an operation the driver has not taken yet (excludes
+    the time-out of a request still in the queue — F13 — and a scrub that is overtaken by a re-issue of its ID);
+  * `drvOp` of an Abandon: its target is not the ID of an operation the driver has not taken yet;
+  * `alloc`: the driver is running, or no other call sits between `next_msgid` and `tx.send` (when the
+    driver ends it clears the whole ID table — fix F22 — under the feet of such calls).
+Nothing is assumed about the NUMBER of allocations: the counter may wrap any number of times. -/
+
+open Conn in
+/-- the schedule hypotheses of finding F13 hold along every history without an early release -/
+theorem C05_fresh_across_wraps (N : Nat) (evs : List Ev) (hsafe : noEarlyRelease (init N) evs = true) :
+    FreshRun2 (init N) evs ∧ FreshRun (init N) evs :=
+  ⟨freshRun2_wraps N evs hsafe, freshRun_wraps N evs hsafe⟩
+
+open Conn in
+/-- while the driver runs, the ID of every call that is on its way to the driver (between `next_msgid`
+and `tx.send`, or in the op queue) is reserved in the ID table -/
+theorem C05_pending_ids_reserved (N : Nat) (evs : List Ev) (hsafe : noEarlyRelease (init N) evs = true)
+    (hrun : (run (init N) evs).drv = .running) (i : Nat) (o : Op) (ho : (run (init N) evs).ops[i]? = some o)
+    (hp : o.phase = .allocated ∨ i ∈ (run (init N) evs).opQ) : o.id ∈ (run (init N) evs).inUse :=
+  pendingReserved_run N evs hsafe hrun i o ho hp
+
+open Conn in
+/-- **C05 across wraps: outstanding operations never share a message ID**, for every size `N` of the ID
+space and every history of ANY length (so with any number of wraps of the counter) without an early
+release. -/
+theorem C05_unique_across_wraps (N : Nat) (evs : List Ev) (hsafe : noEarlyRelease (init N) evs = true) (i j : Nat) (oi oj : Op)
+    (hi : (run (init N) evs).ops[i]? = some oi) (hj : (run (init N) evs).ops[j]? = some oj)
+    (li : Live (run (init N) evs) i oi) (lj : Live (run (init N) evs) j oj) (hne : i ≠ j) : oi.id ≠ oj.id :=
+  C05_unique N evs (freshRun2_wraps N evs hsafe) i j oi oj hi hj li lj hne
+
+open Conn in
+/-- **C05 across wraps: the ID a request leaves the client with** differs from the ID of every other
+outstanding operation and from every ID the driver holds a routing entry for — after any number of wraps. -/
+theorem C05_request_id_unique_across_wraps (N : Nat) (evs : List Ev) (hsafe : noEarlyRelease (init N) evs = true)
+    (i : Nat) (rest : List Nat) (o : Op)
+    (hq : (run (init N) evs).opQ = i :: rest) (ho : (run (init N) evs).ops[i]? = some o) :
+    (∀ (j : Nat) (oj : Op), (run (init N) evs).ops[j]? = some oj → Live (run (init N) evs) j oj → j ≠ i → oj.id ≠ o.id) ∧
+    (∀ p ∈ (run (init N) evs).resultmap, p.1 ≠ o.id) ∧ (∀ p ∈ (run (init N) evs).searchmap, p.1 ≠ o.id) :=
+  C05_request_id_unique N evs (freshRun2_wraps N evs hsafe) i rest o hq ho
+
+open Conn in
+/-- **the wrap skips every ID that is still in use**: whatever ID the allocator hands out next (after
+any number of wraps) differs from the ID of every outstanding operation -/
+theorem C05_next_id_skips_outstanding (N : Nat) (evs : List Ev) (hsafe : noEarlyRelease (init N) evs = true)
+    (hrun : (run (init N) evs).drv = .running) (k : Nat)
+    (hk : nextId (run (init N) evs).N (run (init N) evs).last (run (init N) evs).inUse = .ok k)
+    (j : Nat) (oj : Op) (hj : (run (init N) evs).ops[j]? = some oj) (lj : Live (run (init N) evs) j oj) : oj.id ≠ k := by
+  intro e
+  have hnotin := nextId_notin hk
+  have hu := Uniq.run N evs (freshRun2_wraps N evs hsafe)
+  have hp := pendingReserved_run N evs hsafe hrun
+  rcases lj with l | l | l | ⟨c, _, l⟩
+  · exact hnotin (by rw [← e]; exact hp j oj hj (Or.inl l))
+  · exact hnotin (by rw [← e]; exact hp j oj hj (Or.inr l))
+  · exact hnotin (by rw [← e]; exact hu.mapIn.1 _ l)
+  · exact hnotin (by rw [← e]; exact hu.mapIn.2 _ l)
+
+/-! ### a purely syntactic class of histories without early release
+
+`calm evs`: no event of the history is an `op_call` with a time-out (`enqueue _ (some _)`), an Abandon
+(`alloc (abandon _)`), a stream `next()` with a time-out (`recv _ (some _)`) or a `finish()` of a stream
+that is not Done (`finish _ true`) — so nothing is ever scrubbed — and the driver still runs at the end
+(it never restarts, so it ran all along).  Any interleaving, any number of allocations and wraps. -/
+
+open Conn in
+theorem C05_calm_no_early_release (N : Nat) (evs : List Ev) (hc : calm evs = true)
+    (hr : (run (init N) evs).drv = .running) : noEarlyRelease (init N) evs = true :=
+  noEarlyRelease_calm N evs hc hr
+
+open Conn in
+theorem C05_unique_across_wraps_calm (N : Nat) (evs : List Ev) (hc : calm evs = true)
+    (hr : (run (init N) evs).drv = .running) (i j : Nat) (oi oj : Op)
+    (hi : (run (init N) evs).ops[i]? = some oi) (hj : (run (init N) evs).ops[j]? = some oj)
+    (li : Live (run (init N) evs) i oi) (lj : Live (run (init N) evs) j oj) (hne : i ≠ j) : oi.id ≠ oj.id :=
+  C05_unique_across_wraps N evs (noEarlyRelease_calm N evs hc hr) i j oi oj hi hj li lj hne
+
+open Conn in
+theorem C05_request_id_unique_across_wraps_calm (N : Nat) (evs : List Ev) (hc : calm evs = true)
+    (hr : (run (init N) evs).drv = .running) (i : Nat) (rest : List Nat) (o : Op)
+    (hq : (run (init N) evs).opQ = i :: rest) (ho : (run (init N) evs).ops[i]? = some o) :
+    (∀ (j : Nat) (oj : Op), (run (init N) evs).ops[j]? = some oj → Live (run (init N) evs) j oj → j ≠ i → oj.id ≠ o.id) ∧
+    (∀ p ∈ (run (init N) evs).resultmap, p.1 ≠ o.id) ∧ (∀ p ∈ (run (init N) evs).searchmap, p.1 ≠ o.id) :=
+  C05_request_id_unique_across_wraps N evs (noEarlyRelease_calm N evs hc hr) i rest o hq ho
+
 /-! ### non-vacuity (tests) -/
 open Conn in
 /-- a reachable state with three outstanding operations (one registered, one queued, one between
@@ -156,5 +251,63 @@ open Conn in
 example :
     (run (init 2) (f13History ++ [.drvOp true, .enqueue 2 none, .drvOp true])).wire = [(1, .single), (1, .single)] := by
   decide
+
+/-! ### non-vacuity of the `_across_wraps` theorems: ID space of size 3, 8 allocations, the counter
+wraps three times while the search with ID 1 stays open -/
+open Conn in
+/-- one complete single-result operation: op index `i`, expected ID `id` -/
+def roundTrip (i id : Nat) : List Ev :=
+  [.alloc .single, .enqueue i none, .drvOp true, .srvSend { id := id, op := 1, tok := i, good := true }, .drvResp, .poll i]
+
+open Conn in
+def wrapHistory : List Ev :=
+  -- a search is started and stays open (it even delivers an entry)
+  [.alloc .search, .enqueue 0 none, .drvOp true, .poll 0,
+   .srvSend { id := 1, op := 4, tok := 100, good := true }, .drvResp, .recv 0 none] ++
+  roundTrip 1 2 ++
+  -- an operation that times out AFTER the driver took it: its scrub is not an early release
+  [.alloc .single, .enqueue 2 (some 1), .drvOp true, .tick 1, .poll 2, .drvScrub] ++
+  roundTrip 3 2 ++      -- first wrap: 3 → (1 in use) → 2
+  roundTrip 4 3 ++
+  roundTrip 5 2 ++      -- second wrap
+  roundTrip 6 3 ++
+  -- third wrap; this call is still on its way to the driver at the end
+  [.alloc .single, .enqueue 7 none]
+
+set_option maxRecDepth 100000 in
+open Conn in
+example :
+    let s := run (init 3) wrapHistory
+    noEarlyRelease (init 3) wrapHistory = true ∧ allocCount wrapHistory = 8 ∧ 2 * 3 < allocCount wrapHistory ∧
+    -- the IDs handed out, in order: each wrap skipped ID 1, which the open search still uses
+    s.ops.map (·.id) = [1, 2, 3, 2, 3, 2, 3, 2] ∧
+    s.searchmap = [(1, 0)] ∧ s.opQ = [7] ∧ s.drv = .running ∧ s.inUse = [2, 1] ∧
+    s.wire.map (·.1) = [1, 2, 3, 2, 3, 2, 3] ∧
+    -- two outstanding operations at the end (hypotheses of `C05_unique_across_wraps`)
+    (∃ o, s.ops[0]? = some o ∧ Live s 0 o) ∧ (∃ o, s.ops[7]? = some o ∧ Live s 7 o) ∧
+    -- and the next allocation would skip both of them
+    nextId s.N s.last s.inUse = .ok 3 := by
+  refine ⟨by decide, by decide, by decide, by decide, by decide, by decide, by decide, by decide, by decide,
+    ⟨_, rfl, Or.inr (Or.inr (Or.inr ⟨0, by decide, by decide⟩))⟩, ⟨_, rfl, Or.inr (Or.inl (by decide))⟩, by decide⟩
+
+open Conn in
+/-- a calm history (hypotheses of the `_calm` theorems): 8 allocations over 3 IDs, three wraps, the
+search with ID 1 open throughout, one request queued at the end -/
+def calmWrapHistory : List Ev :=
+  [.alloc .search, .enqueue 0 none, .drvOp true, .poll 0] ++
+  roundTrip 1 2 ++ roundTrip 2 3 ++ roundTrip 3 2 ++ roundTrip 4 3 ++ roundTrip 5 2 ++ roundTrip 6 3 ++
+  [.alloc .single, .enqueue 7 none]
+
+set_option maxRecDepth 100000 in
+open Conn in
+example :
+    let s := run (init 3) calmWrapHistory
+    calm calmWrapHistory = true ∧ s.drv = .running ∧ 2 * 3 < allocCount calmWrapHistory ∧
+    s.ops.map (·.id) = [1, 2, 3, 2, 3, 2, 3, 2] ∧ s.searchmap = [(1, 0)] ∧ s.opQ = [7] := by
+  refine ⟨by decide, by decide, by decide, by decide, by decide, by decide⟩
+
+open Conn in
+/-- the F13 history is rejected by the check (at its `drvScrub`: the request is still queued) -/
+example : noEarlyRelease (init 2) f13History = false := by decide
 
 end Ldap3V
